@@ -9,6 +9,8 @@ def run(res, args):
     res.assumptions = ["the dumper calls GetRegisterListByProduct for all 65536 ids ascending, then descending, then an interleaved sequence, and records every attribute of every register (a history-dependent result makes obs_reglist_stable false)",
                        "class exclusions are written in coq/Tables/RegFactory.v from the property text"]
     ok = tables.prepare(res, "C12", THEOREMS)
+    from lib import reggen
+    reggen.reg_obligations(res, "C12")
     obs = open(common.GEN + "/Obs.v").read()
     m = re.search(r"Definition obs_reglist_of .*?\n\]\.", obs, re.S)
     n = len(re.findall(r"^\s*\(\d+, \(\d+, \d+\)\)", m.group(0), re.M)) if m else 0
